@@ -271,7 +271,7 @@ fn real_operand(o: &SOp, pos: usize) -> InstructionOps {
             out.append('    kani::assume(%s);' % ALLOWED[c].replace('K', 'a[%d].kind' % p))
         out.append('    let addr: u32 = kani::any();')
         out.append('    #[cfg(small_addr)]')
-        out.append('    kani::assume(addr <= 4096);')
+        out.append('    kani::assume(addr <= 500);   // (replay only) fits the smallest flash of the device table')
         out.append('    let ctx = sym_ctx();')
         args = ', '.join('real_operand(&a[%d], %d)' % (p, p) for p in range(n))
         out.append('    enc_leaf(%d, &a, %d, %s, addr, &ctx);' % (mn_id(mn), n, 'vec![%s]' % args if n else 'Vec::new()'))
